@@ -54,7 +54,7 @@ def order_rules(repo, res):
             # ORDER-5: the permutation itself is used only inside _order_by_id / where it is defined
             if isinstance(node, ast.Subscript) and isinstance(node.ctx, ast.Load) and self_attr(node.value) == '_group_results' \
                     and isinstance(node.slice, ast.Constant) and node.slice.value == 'ungroup_indices':
-                ok = f.name == '_order_by_id'
+                ok = f.name == '_order_by_id' or _is_gather(node)
                 res.oblige('T-ORDER', f'{f.qualname}: ungroup_indices used only by _order_by_id', ok, nontrivial=True)
                 if not ok:
                     res.add(Finding('T-ORDER', f.fullname, unparse(node), f'{f.module.relpath}:{node.lineno}',
@@ -62,7 +62,9 @@ def order_rules(repo, res):
                                     f'(a scatter applies the inverse permutation)', {}))
     SP.returns_match(repo, res, 'T-ORDER', f'{PP}._order_by_id',
                      ["[iterable[i] for i in self._group_results['ungroup_indices']]"], 'the gather iterable[ungroup_indices]')
-    SP.returns_match(repo, res, 'T-ORDER', f'{PP}._ungroup', ['self._order_by_id(_flatten(iterable))'], 'flatten, then reorder by id')
+    SP.returns_match(repo, res, 'T-ORDER', f'{PP}._ungroup',
+                     ['self._order_by_id(_flatten(iterable))', "[_flatten(iterable)[i] for i in self._group_results['ungroup_indices']]"],
+                     'flatten, then reorder by id')
     f = repo.get_function(f'{PP}._fit_sources')
     expect_stmt(res, 'T-ORDER', f, 'sources = ' + nf_text("init_params.group_by('group_id')"), 'sources are fitted in group order')
     expect_stmt(res, 'T-ORDER', f, 'ungroup_idx = ' + nf_text("np.argsort(sources['id'].value)"), 'ungroup permutation = argsort of the ids of the grouped table')
@@ -219,6 +221,18 @@ def fit_data_rules(repo, res):
         expect_stmt(res, 'SPEC', f, w, meaning, pool)
     g = repo.get_function('photutils.background.local_background.LocalBackground.__call__')
     expect_stmt(res, 'SPEC', g, 'values = ' + nf_text('apermask.get_values(data, mask=mask)'), 'local background uses unmasked annulus pixels only')
+
+
+def _is_gather(node):
+    """`[seq[i] for i in <ungroup_indices>]`: the permutation is the iterable of a comprehension whose element indexes a
+    sequence with the loop variable (the gather form of _order_by_id, written out)."""
+    g = getattr(node, '_parent', None)
+    comp = getattr(g, '_parent', None)
+    if not (isinstance(g, ast.comprehension) and g.iter is node and isinstance(g.target, ast.Name)
+            and isinstance(comp, ast.ListComp) and len(comp.generators) == 1 and not g.ifs):
+        return False
+    e = comp.elt
+    return isinstance(e, ast.Subscript) and isinstance(e.slice, ast.Name) and e.slice.id == g.target.id
 
 
 def run(repo, tier):
